@@ -10,8 +10,8 @@ ASSUME = [
 
 def run(tier: str, seed: int):
     if tier == 'quick':
-        cfgs = list(F.fam_shapes(1, 4, batch=2)) + list(F.fam_variants(3, batch=2))
-        serial = list(F.fam_shapes(1, 3, batch=1)) + list(F.fam_variants(2))
+        cfgs = list(F.fam_shapes(1, 4, batch=2)) + list(F.fam_variants(3, batch=2)) + list(F.fam_inherit(3))
+        serial = list(F.fam_shapes(1, 3, batch=1)) + list(F.fam_variants(2)) + list(F.fam_inherit(2))
         rule = ('all DAG shapes n<=4 x requested subsets x pre-cached subsets (batch<=2); n<=3 x placements x '
                 'duplication (shared vs fresh equal instances, same task requested twice / nested) x types x request variants')
         e3c = (list(F.fam_e3(F.fam_shapes(1, 3), workers=(2,), liveness=False)) + list(F.fam_e3(F.fam_variants(2), workers=(2,), liveness=False))
